@@ -241,8 +241,11 @@ def handleWake (nq : Nat) (fresh : Bool) (ops : List Op) : String :=
 end Drv
 /-! ## Request bookkeeping of a running memory-copy command (`defaultMemoryCopyMiddleware`)
 `processMemCopyH2DCommand`/`…D2H…` add one `FlushReq` per GPU (when a dirty buffer overlaps) and
-the copy requests to `cmd.Reqs`. `processMemCopyH2DReturn`/`…D2H…` remove the answered request and
-dequeue the command when `len(cmd.Reqs) == 0`; `processFlushReturn` ONLY removes the request. -/
+the copy requests to `cmd.Reqs`. REPAIRED code: each of the three return paths
+(`processMemCopyH2DReturn`, `processMemCopyD2HReturn`, `processFlushReturn`) removes the answered
+request and then calls `completeCommandIfDone`, which dequeues the command when
+`len(cmd.GetReqs()) == 0`. BEFORE the `fix:` commit `processFlushReturn` only removed the request
+(`deliverOld`, documentation theorems `…_before_fix…` only). -/
 namespace Copy
 
 inductive RKind | flush | copy
@@ -256,11 +259,19 @@ structure CQ where
   queued : Bool := true
 deriving DecidableEq, Repr
 
+/-- one response is processed (repaired code): remove the request, then `completeCommandIfDone` -/
 def deliver (s : CQ) : RKind → CQ
-  | .flush => { s with f := s.f - 1 }                                          -- processFlushReturn
-  | .copy => { s with c := s.c - 1, queued := s.queued && !(s.f + (s.c - 1) == 0) }   -- processMemCopy…Return
+  | .flush => { s with f := s.f - 1, queued := s.queued && !((s.f - 1) + s.c == 0) }   -- processFlushReturn
+  | .copy => { s with c := s.c - 1, queued := s.queued && !(s.f + (s.c - 1) == 0) }     -- processMemCopy…Return
 
 def run (nf nc : Nat) (order : List RKind) : CQ := order.foldl deliver { f := nf, c := nc }
+
+/-- the code BEFORE the fix: `processFlushReturn` only removes the request -/
+def deliverOld (s : CQ) : RKind → CQ
+  | .flush => { s with f := s.f - 1 }
+  | .copy => { s with c := s.c - 1, queued := s.queued && !(s.f + (s.c - 1) == 0) }
+
+def runOld (nf nc : Nat) (order : List RKind) : CQ := order.foldl deliverOld { f := nf, c := nc }
 
 /-- every request is answered exactly once -/
 def validOrder (nf nc : Nat) (o : List RKind) : Prop := o.count .flush = nf ∧ o.count .copy = nc
